@@ -1949,13 +1949,13 @@ impl<'p> Evaluator<'_, 'p> {
                 self.state_stack.push(State::StringToValue);
 
                 for chr in s.chars().rev() {
-                    let args_thunks = Box::new([self
+                    let arg_thunk = self
                         .program
-                        .gc_alloc(ThunkData::new_done(ValueData::from_char(chr)))]);
+                        .gc_alloc_view(ThunkData::new_done(ValueData::from_char(chr)));
 
                     self.state_stack
                         .push(State::FnFallible(Self::do_std_flat_map_string_part));
-                    self.execute_call(&func, args_thunks);
+                    self.check_thunk_args_and_execute_call(&func, &[arg_thunk], &[], None)?;
                 }
 
                 Ok(())
@@ -1967,11 +1967,9 @@ impl<'p> Evaluator<'_, 'p> {
                 self.state_stack.push(State::ArrayToValue);
 
                 for item in array.iter().rev() {
-                    let args_thunks = Box::new([item.clone()]);
-
                     self.state_stack
                         .push(State::FnFallible(Self::do_std_flat_map_array_part));
-                    self.execute_call(&func, args_thunks);
+                    self.check_thunk_args_and_execute_call(&func, &[item.view()], &[], None)?;
                 }
 
                 Ok(())
